@@ -115,10 +115,17 @@ def _migrate_csv_to_rules(csv_file: str, config_dir: str, backup: bool = True,
     """
     from .merchant_engine import csv_to_merchants_content
     from .merchant_utils import load_merchant_rules
+    import json
+    import re
     import shutil
 
     try:
         new_file = os.path.join(config_dir, 'merchants.rules')
+        # merchants_file is resolved against the parent of the config folder, and that
+        # folder need not be called "config" (tally up <dir>, TALLY_CONFIG)
+        rules_ref = os.path.basename(os.path.abspath(config_dir)) + '/merchants.rules'
+        if not re.fullmatch(r'\w[\w.\-/ ]*', rules_ref) or rules_ref != rules_ref.strip():
+            rules_ref = json.dumps(rules_ref, ensure_ascii=False)   # quoted YAML string
         if os.path.exists(new_file):
             # Never overwrite a rules file the user already has (tally init applies the same guard)
             print(f"  {C.RED}✗{C.RESET} config/merchants.rules already exists - not overwriting it")
@@ -150,14 +157,13 @@ def _migrate_csv_to_rules(csv_file: str, config_dir: str, backup: bool = True,
             # (an active top-level setting with a value: not a commented-out
             # '# merchants_file: ...' line and not an empty 'merchants_file:' key,
             # which the loader treats as "not set")
-            import re
             if not re.search(r'''^merchants_file[ \t]*:[ \t]*(?!(~|null|Null|NULL|""|\'\')?[ \t]*(#.*)?\r?$)\S''',
                              settings_content, re.MULTILINE):
                 tmp_settings = settings_path + '.tmp'
                 with open(tmp_settings, 'w', encoding='utf-8', newline='') as f:
                     f.write(settings_content)
                     f.write('\n# Merchant rules file (migrated from CSV)\n')
-                    f.write('merchants_file: config/merchants.rules\n')
+                    f.write(f'merchants_file: {rules_ref}\n')
                 os.replace(tmp_settings, settings_path)
                 settings_updated = True
 
@@ -173,7 +179,7 @@ def _migrate_csv_to_rules(csv_file: str, config_dir: str, backup: bool = True,
 
         if settings_updated:
             print(f"  {C.GREEN}✓{C.RESET} Updated: config/{settings_file or 'settings.yaml'}")
-            print(f"      Added merchants_file: config/merchants.rules")
+            print(f"      Added merchants_file: {rules_ref}")
 
         return True
     except Exception as e:
